@@ -34,6 +34,7 @@ from pysmt.solvers.qelim import (ShannonQuantifierEliminator,
 from pysmt.fnode import FNode
 import pysmt.typing as _pt
 from ..core import termio
+from ..core import profiles as P
 from ..core.refsem import (compile_term, free_symbols, Unconstrained, IllTyped, Unsupported)
 from ..core.termgen import Profile, interps
 from ..core.termio import INT, REAL, BOOL, STRING, sort_of
@@ -719,7 +720,7 @@ def _atom(p, name):
     """the atom alphabet: Boolean symbols, LIA / LRA / BV relations, UF predicates, a theory
     ITE inside a relation, a quantifier inside a predicate argument, other theories"""
     m = p.m
-    if name in ("a", "b", "c", "FV0", "FV1", "FV2"):     # FVn: user symbols named like the library's fresh ones
+    if name in ("a", "b", "c", "d", "FV0", "FV1", "FV2"):     # FVn: user symbols named like the library's fresh ones
         return p.sym(name, BOOL)
     if name in ("Ea.a<->FV0", "Aa.a|FV1"):
         a = p.sym("a", BOOL)
@@ -787,7 +788,9 @@ _BINDERS = {"a": [("a", BOOL)], "b": [("b", BOOL)], "ab": [("a", BOOL), ("b", BO
             "u": [("u", B1)], "v": [("v", B1)], "uv": [("u", B1), ("v", B1)], "w": [("w", B2)],
             "au": [("a", BOOL), ("u", B1)], "uw": [("u", B1), ("w", B2)],
             "x": [("x", INT)], "y": [("y", INT)], "xy": [("x", INT), ("y", INT)],
-            "ax": [("a", BOOL), ("x", INT)]}
+            "ax": [("a", BOOL), ("x", INT)],
+            "abc": [("a", BOOL), ("b", BOOL), ("c", BOOL)], "abcd": [("a", BOOL), ("b", BOOL), ("c", BOOL), ("d", BOOL)],
+            "uvw": [("u", B1), ("v", B1), ("w", B2)]}
 
 
 def skeleton(atoms, binders=(), ops=("not", "and", "or", "implies", "iff", "bite"), nary3=False):
@@ -951,6 +954,14 @@ def parts(ctx):
       dom={INT: (0, 1), STRING: ("", "a", "ab"), REAL: (Fraction(0), Fraction(1, 2), Fraction(1))})
     # ---- quantified skeletons ----------------------------------------------------------
     A("q-bool-d2", skeleton(("a", "b", "c"), binders=("a", "b", "ab"), ops=("not",) + _BIN), 2, 16)
+    # beyond the small sizes: blocks binding three and four variables; connectives with five arguments
+    A("q-bool3-d2", skeleton(("a", "b", "c", "d"), binders=("abc", "abcd"), ops=("not", "and", "or", "iff")), 2, 16,
+      top_ops=lambda o: "_" in o.name)
+    A("q-bv3-d2", skeleton(("u=v", "w<2", "a"), binders=("uvw",), ops=("not", "and", "or")), 2, 8,
+      top_ops=lambda o: "_" in o.name)
+    A("nary5-d1", lambda e: P.nary5mix_profile(e, compound=True, natoms=5 if q else None), 1, 32)
+    A("nary5-quant-d1", lambda e: P.nary5mix_profile(e, natoms=4 if q else None), 1, 32, procs=("nnf", "prenex", "aig", "conj", "disj"),
+      dom={INT: (0, 1)})
     A("q-bool-d2-ite", skeleton(("a", "b"), binders=("a", "b")), 2, 16, top_ops=_names("bite"),
       max_new=1 if q else None)
     A("q-bool-d3", skeleton(("a", "b"), binders=("a", "b", "ba"), ops=("not",) + _BIN), 3,
